@@ -61,7 +61,9 @@ def decide_scalar(e, facts):
     v = facts[e.left.id]
     op, r = e.ops[0], e.comparators[0]
     ok, c = au.const(r)
-    if ok:
+    if ok and isinstance(op, (ast.Is, ast.IsNot)) and c is None:
+      return (v is None) if isinstance(op, ast.Is) else (v is not None)
+    if ok and c is not None and v is not None:
       return {ast.Eq: v == c, ast.NotEq: v != c, ast.Lt: v < c, ast.LtE: v <= c, ast.Gt: v > c, ast.GtE: v >= c}.get(type(op))
     if isinstance(r, (ast.Tuple, ast.List, ast.Set)) and all(au.const(x)[0] for x in r.elts):
       vals = [au.const(x)[1] for x in r.elts]
@@ -69,15 +71,39 @@ def decide_scalar(e, facts):
         return v in vals
       if isinstance(op, ast.NotIn):
         return v not in vals
+  # truthiness of a name with a concrete value; isinstance of a concrete int / None against the usual classes
+  if isinstance(e, ast.Name) and e.id in facts:
+    return bool(facts[e.id])
+  if isinstance(e, ast.Call) and isinstance(e.func, ast.Name) and e.func.id == 'isinstance' and len(e.args) == 2 and isinstance(e.args[0], ast.Name) and e.args[0].id in facts:
+    v = facts[e.args[0].id]
+    names = [norm(x).split('.')[-1] for x in (e.args[1].elts if isinstance(e.args[1], (ast.Tuple, ast.List)) else [e.args[1]])]
+    if isinstance(v, int) and not isinstance(v, bool):
+      if any(n_ in ('int', 'Integral', 'Number', 'Real', 'Rational', 'integer', 'object') for n_ in names):
+        return True
+      if all(n_ in ('RandomState', 'Generator', 'str', 'float', 'list', 'tuple', 'dict', 'set', 'ndarray', 'BitGenerator', 'SeedSequence') for n_ in names):
+        return False
+    if v is None:
+      return True if any(n_ in ('NoneType', 'object') for n_ in names) else (False if all(n_[:1].isupper() or n_ in ('int', 'float', 'str', 'integer') for n_ in names) else None)
+  if isinstance(e, ast.BoolOp):
+    vs = [decide_scalar(x, facts) for x in e.values]
+    if isinstance(e.op, ast.And):
+      return False if any(v is False for v in vs) else (True if all(v is True for v in vs) else None)
+    return True if any(v is True for v in vs) else (False if all(v is False for v in vs) else None)
   return None
 
 
-def dead_under(expr, facts):
-  """The sub-expression sits in the branch of a conditional expression that is not evaluated under `facts`."""
+def dead_under(expr, facts, resolve=None):
+  """The sub-expression sits in the branch of a conditional expression that is not evaluated under `facts`
+  (`resolve` expands a named condition: one_sided = tails == 1)."""
   cur, par = expr, getattr(expr, '_parent', None)
   while par is not None and not isinstance(par, ast.stmt):
     if isinstance(par, ast.IfExp) and cur is not par.test:
       v = decide_scalar(par.test, facts)
+      if v is None and resolve is not None:
+        try:
+          v = decide_scalar(resolve(par.test), facts)
+        except Exception:
+          v = None
       if v is not None and ((v and cur is par.orelse) or ((not v) and cur is par.body)):
         return True
     cur, par = par, getattr(par, '_parent', None)
@@ -144,7 +170,7 @@ def quantile_order(rep, f, rule, level_iv, sites_fn, prop_hint=''):
     reach = g.reachable(g.entry, ef)
     env = {'level': level_iv, 'tails': Iv(tails, tails)}
     for kind, arg, node, what in sites_fn(ctx, rd, reach):
-      if node not in reach or dead_under(arg, {'tails': tails}):
+      if node not in reach or dead_under(arg, {'tails': tails}, lambda t_, node=node: rd.expand(node, t_, keep=('level', 'tails'))[0]):
         continue
       ex = rd.expand(node, arg, keep=('level', 'tails'))[0]
       iv = iv_eval(ex, env)
@@ -554,7 +580,7 @@ def distribution_rules(repo, rep, prefix):
         tx = c3.rd.expand(n, n.ast.value)[0]
         t = norm(tx)
         pi = "self.analysis_data[self.df_names.period] == self.periods.pre"
-        ok = t == 'sm.OLS(self._response_vector(%s).values, self._design_matrix(%s).values).fit()' % (pi, pi)
+        ok = t == 'sm.OLS(self._response_vector(%s).to_numpy(), self._design_matrix(%s).to_numpy()).fit()' % (pi, pi)
         v_, al_ = au.verdict_text(ok, tx, DVOC)
         rep.check3(v_, prefix + 'R5/posterior-shape', 'the model is the OLS of pre-period treatment on (1, control)', fm.qualname, t[:160],
                    'the pre-period model is `%s`' % t[:140], fm.loc(n.ast),
@@ -606,6 +632,22 @@ def summary_rules(repo, rep, prefix, level_iv=None):
         rep.violation(prefix + 'R2/one-distribution', f.qualname, 'column %s missing' % c, 'the summary has no %s column' % c, f.loc(d))
       continue
     names = {x.id for x in ast.walk(cols[c]) if isinstance(x, ast.Name)} - {'np'} - vocab
+    # the posterior object may be read through locals (estimate = delta.mean(); {'estimate': estimate}): follow plain
+    # assignments until a local bound to a call is reached
+    for _hop in range(3):
+      nxt = set()
+      for nm_ in names:
+        d_ = rd.single_def(col_nodes.get(c, node), nm_)
+        if d_ is not None and d_.how == 'assign' and d_.value is not None and not isinstance(d_.value, ast.Call):
+          nxt |= {x.id for x in ast.walk(d_.value) if isinstance(x, ast.Name)} - {'np'} - vocab
+        elif d_ is not None and d_.how == 'assign' and isinstance(d_.value, ast.Call) and isinstance(d_.value.func, ast.Attribute) \
+            and isinstance(d_.value.func.value, ast.Name) and d_.value.func.value.id not in ('self', 'np', 'sp', 'stats') and d_.value.func.attr in ('mean', 'median', 'ppf', 'cdf', 'sf'):
+          nxt.add(d_.value.func.value.id)          # estimate = delta.mean(): the object is delta
+        else:
+          nxt.add(nm_)
+      if nxt == names:
+        break
+      names = nxt
     if len(names) == 1:
       dname = dname or names.copy().pop()
   for c in list(cols):
@@ -632,7 +674,8 @@ def summary_rules(repo, rep, prefix, level_iv=None):
     for c, pat in want.items():
       if c in cols:
         t = norm(cols[c])
-        v_, al_ = au.verdict_text(re.fullmatch(pat, t) is not None, cols[c], vocab | {dname})
+        t_core = norm(_strip_shape(cols[c]))        # reshape / flatten / asarray commute with the element-wise arithmetic of the columns
+        v_, al_ = au.verdict_text(re.fullmatch(pat, t) is not None or re.fullmatch(pat, t_core) is not None, cols[c], vocab | {dname})
         rep.check3(v_, prefix + 'R2/one-distribution', 'column %s = %s' % (c, t[:60]), f.qualname, '%s: %s' % (c, t[:100]),
                    'summary column %s is `%s`, which is not the documented quantity (median / quantiles / |lower - median| / scale / P(effect > threshold)) of the posterior %s' % (c, t[:80], dname),
                    f.loc(cols[c]) if hasattr(cols[c], 'lineno') else f.loc(),
